@@ -10,7 +10,8 @@
 (*   equality.  RDP: the same against the fixed-point quotient-rule formulas *)
 (*   with the tolerance AgreesFix of the specification.                      *)
 (* mode "F": dyadic random images, all four priors: relations between        *)
-(*   observations (symmetry, row = H e_i, scaling, uniform image, locality,  *)
+(*   observations (symmetry, row = H e_i, scaling in beta and kappa, uniform  *)
+(*   image, locality,                                                        *)
 (*   x'Hx >= 0, linearity in the direction, finite-difference brackets).     *)
 EXTENDS Priors, TraceLib
 VARIABLES l, c, x, bad
